@@ -14,11 +14,16 @@ import (
 //verif:stub github.com/gotid/god/lib/logx.getNowDate => verifNowDate
 
 var (
-	verifTick int // seconds read so far
-	verifDay  int // days elapsed
+	verifTick        int  // seconds read so far
+	verifDay         int  // days elapsed
+	verifManualClock bool // H19k: the second is set by the harness (verifSec), not advanced by reading
+	verifSec         int
 )
 
 func verifNowRFC3339() string {
+	if verifManualClock {
+		return "2009-11-10T23:00:" + verifTwo(verifSec) + "Z"
+	}
 	verifTick++
 	return "2009-11-10T23:00:" + verifTwo(verifTick) + "Z"
 }
